@@ -90,6 +90,7 @@ type Options struct {
 	SpinK    int                        // consecutive same-object ops by one thread before it is marked yielding (0 = 40)
 	LoadK    int                        // same for pure loads (0 = 6)
 	LiveH    int                        // steps with only yielding threads enabled before declaring livelock (0 = 2000)
+	Muted    bool                       // start muted: until Unmute() every decision is the default and is not a choice point
 	Trace    bool                       // record per-thread op logs
 	OnEffect func(idx int, desc string) // called at every persistent-effect point (vos), before the effect
 }
@@ -335,7 +336,17 @@ func (s *Sched) enabledList(cur *Thread) (list []*Thread, curEnabled bool) {
 	return en, curEnabled
 }
 
+// Unmute ends the muted prelude of an execution (see Options.Muted).
+func Unmute() {
+	if active != nil {
+		active.opt.Muted = false
+	}
+}
+
 func (s *Sched) choose(n int, curEnabled, data bool) int {
+	if s.opt.Muted {
+		return 0
+	}
 	i := len(s.res.Points)
 	c := 0
 	if i < len(s.prefix) {
